@@ -9,6 +9,7 @@ import (
 	"context"
 	"fmt"
 	"sort"
+	"strings"
 	"sync"
 	"sync/atomic"
 	"time"
@@ -42,7 +43,28 @@ type lastInfo struct {
 	mh int
 }
 
+// faultPool is the maker's isaac.ProposalPool: the real TempPool, except that SetProposal fails (without writing)
+// while failSet > 0 -- a leveldb write error / closed storage at the one point where the node's memory of what it
+// proposed is written.
+type faultPool struct {
+	*isaacdatabase.TempPool
+	failSet  atomic.Int32 // number of SetProposal calls still to fail
+	setFails atomic.Int32 // SetProposal calls that failed
+}
+
+var errInjected = fmt.Errorf("verif injected pool write error")
+
+func (f *faultPool) SetProposal(pr base.ProposalSignFact) (bool, error) {
+	if f.failSet.Load() > 0 {
+		f.failSet.Add(-1)
+		f.setFails.Add(1)
+		return false, errInjected
+	}
+	return f.TempPool.SetProposal(pr)
+}
+
 type env struct {
+	fp     *faultPool
 	pool   *isaacdatabase.TempPool
 	maker  *isaac.ProposalMaker
 	local  base.LocalNode
@@ -54,7 +76,7 @@ type env struct {
 
 func newEnv(seed uint64) *env {
 	p, _ := poolh.NewPool()
-	e := &env{pool: p, opid: map[string]int{}, factid: map[string]int{}}
+	e := &env{pool: p, fp: &faultPool{TempPool: p}, opid: map[string]int{}, factid: map[string]int{}}
 	e.local = base.NewBaseLocalNode(base.DummyNodeHint, poolh.Key(seed, 0), poolh.Addr(0))
 	for i := 0; i < 64; i++ {
 		e.opid[hashOf("op", i).String()] = i
@@ -67,7 +89,7 @@ func newEnv(seed uint64) *env {
 			}
 			return nil, nil
 		},
-		p,
+		e.fp,
 		func() (base.BlockMap, bool, error) {
 			l := e.last.Load()
 			if l == nil {
@@ -191,7 +213,10 @@ func (s *seq) clean() {
 func (s *seq) observe(p pos, what string, pr base.ProposalSignFact, err error) string {
 	s.res.Count("", false)
 	if err != nil {
-		return "OTooOld" // the only error of the maker in these histories; the model decides whether it is due
+		if strings.Contains(err.Error(), errInjected.Error()) {
+			return "OPoolErr"
+		}
+		return "OTooOld" // the only other error of the maker in these histories; the model decides whether it is due
 	}
 	if pr == nil {
 		s.fail("maker-nil", what+" returned neither a proposal nor an error")
@@ -247,6 +272,37 @@ func (s *seq) preferEmpty(p pos) {
 	s.terms = append(s.terms, fmt.Sprintf("IPreferEmpty %s %s", p.coq(), o))
 }
 
+// callFail: a Make (or PreferEmpty) call during which the pool's SetProposal fails.  A call whose write failed must
+// return an error, not a proposal: the pool is the node's only memory of what it proposed for the position.
+func (s *seq) callFail(p pos, ops [][2]int, prefer bool) {
+	f := func(context.Context, base.Height) ([][2]util.Hash, error) {
+		hs := make([][2]util.Hash, len(ops))
+		for i, o := range ops {
+			hs[i] = [2]util.Hash{hashOf("op", o[0]), hashOf("fact", o[1])}
+		}
+		return hs, nil
+	}
+	s.e.getops.Store(&f)
+	before := s.e.fp.setFails.Load()
+	s.e.fp.failSet.Store(1)
+	var pr base.ProposalSignFact
+	var err error
+	what := "Make (pool write fails)"
+	if prefer {
+		what = "PreferEmpty (pool write fails)"
+		pr, err = s.e.maker.PreferEmpty(context.Background(), base.RawPoint(p.h, p.round), hashOf("block", p.prev))
+	} else {
+		pr, err = s.e.maker.Make(context.Background(), base.RawPoint(p.h, p.round), hashOf("block", p.prev))
+	}
+	s.e.fp.failSet.Store(0)
+	s.hist = append(s.hist, jstep{"op": "callfail", "prefer": prefer, "h": p.h, "round": p.round, "prev": p.prev, "ops": ops})
+	if s.e.fp.setFails.Load() != before && err == nil && pr != nil {
+		s.fail("proposal-handed-out-not-stored", fmt.Sprintf("%s at %+v: SetProposal failed but the call returned a signed proposal: the node will not remember it", what, p))
+	}
+	o := s.observe(p, what, pr, err)
+	s.terms = append(s.terms, fmt.Sprintf("ICallFail %s %s", p.coq(), o))
+}
+
 func (s *seq) finish(cases *vh.Cases, label string) {
 	cases.Add(vh.List(s.terms), map[string]any{"label": label, "history": s.hist})
 	_ = s.e.pool.Close()
@@ -291,9 +347,15 @@ func generated(rd *vh.Rand, seed uint64, res *vh.Result, cases *vh.Cases, withCl
 		case c < 7:
 			s.make(p, randOps(rd))
 			res.Dist("seq_make")
-		case c < 10:
+		case c < 9:
 			s.preferEmpty(p)
 			res.Dist("seq_prefer_empty")
+		case c < 10:
+			s.callFail(p, randOps(rd), rd.Bool())
+			res.Dist("seq_call_with_failing_pool_write")
+			if rd.Bool() { // asked again for the same position right away
+				s.make(p, randOps(rd))
+			}
 		case c < 11:
 			if rd.Bool() {
 				m++
@@ -338,6 +400,22 @@ func corpus(seed uint64, res *vh.Result, cases *vh.Cases) {
 	s.make(p, [][2]int{{6, 6}})
 	res.Count("corpus-branches", true)
 	s.finish(cases, "corpus: branches of Make / PreferEmpty")
+
+	// the pool write fails for the first proposal of a position; the node is asked again
+	s = newSeq(seed, res)
+	s.setLast(10, 0)
+	s.callFail(p, [][2]int{{1, 1}}, false)
+	s.make(p, [][2]int{{2, 2}})
+	s.callFail(p, [][2]int{{3, 3}}, false) // now pooled: found before any write
+	s.preferEmpty(p)
+	q := pos{h: 11, round: 1, prev: 0}
+	s.callFail(q, nil, true)
+	s.callFail(q, [][2]int{{4, 4}}, false)
+	s.preferEmpty(q)
+	s.make(q, [][2]int{{5, 5}})
+	s.callFail(pos{h: 8, round: 0, prev: 0}, nil, false) // too old comes first
+	res.Count("corpus-pool-write-fails", true)
+	s.finish(cases, "corpus: pool write fails, asked again")
 
 	// KNOWN FINDING witness: a request for a far-future point stores an empty proposal at a great height; the
 	// periodic clean-up then removes the proposals of the current height; the next request for the current
